@@ -615,13 +615,19 @@ class DAGRunConcurrentManager(DAGRunManagerLike):
             # Nobody awaits the switch task, so the run method must be woken up to see the error
             await self.__raise_exc(ex)
 
-        return await self._run_dag(
+        result = await self._run_dag(
             dag=self._get_reduced_dag(
                 self.dag.input_node,
                 (self._node_storage.get_switch_result(node_id)).node_id,
                 is_oneof=dag.is_oneof,
             ),
         )
+
+        # If the selected case has already been computed for another consumer, the subgraph above is empty and
+        # nobody tells the consumers of the switch that it has been resolved.
+        await self.__unlock_descendants(node_id)
+
+        return result
 
     async def _run_node(
         self,
